@@ -2851,6 +2851,13 @@ def transform_compressible(items, constants, labels):
             new_items.append(item)
             continue
 
+        # skip the jalr half of a far call / tail: its immediate is still adjusted
+        # relative to the preceding auipc when immediates get resolved
+        if getattr(item, 'is_auipc_jump', False):
+            position += item.size()
+            new_items.append(item)
+            continue
+
         # check if any set of criteria is all true for this item
         compressed = None
         for name, preds in criteria.items():
